@@ -1,4 +1,5 @@
 import CMacVerif.Props.C04
+import CMacVerif.Lemmas.HydroPhases
 /-!
 # C10 — hydro results do not depend on the subgrid layout or on the schedule
 
@@ -10,12 +11,13 @@ bounded empirically by `tools/props/c10.py`).
 * `step_layout_independent` — the cell states after one step are the same for every layout and
   equal those of the plain sequential sweep over the undivided grid
 * `schedule_independent` — every execution order of the tasks that respects the task graph gives
-  the same cell states (`…_partial`: see the statement)
-* `single_thread_deterministic`
+  the same cell states; `schedule_equals_step` — namely those of `hydroStep`;
+  `execution_layout_independent` — for any two layouts of the same grid and any schedules
+* `single_thread_deterministic` — with one thread no scheduling choice remains
 -/
 namespace CMacVerif.C10
 open CMacVerif CMacVerif.RiemannVacuum CMacVerif.HydroGraph CMacVerif.HydroSweeps
-  CMacVerif.HydroUpdate CMacVerif.HydroStep
+  CMacVerif.HydroUpdate CMacVerif.HydroStep CMacVerif.HydroTasks CMacVerif.HydroSchedule
 
 /-! ## Layout -/
 
@@ -71,6 +73,106 @@ theorem step_same_for_all_layouts (L L' : Layout) (c c' : Cells)
     hydroStep flux pr limiter predict (layoutOps L c) (layoutOps L c) s
       = hydroStep flux pr limiter predict (layoutOps L' c') (layoutOps L' c') s := by
   rw [step_layout_independent L c hc, step_layout_independent L' c' hc', hG]
+
+
+/-! ## Schedule -/
+
+/-- Two sequential executions of the same tasks that both respect the data dependences
+(`mustPrecede`: a task of an earlier phase runs before a task of a later phase that touches a
+common subgrid) give the same state: tasks that the dependences leave unordered either touch
+disjoint sets of cells or are accumulating sweeps of the same phase, and commute. -/
+theorem respecting_schedules_agree (L : Layout) (c : Cells) (hc : 0 < c.cx ∧ 0 < c.cy ∧ 0 < c.cz)
+    (flux : FluxFn ℝ) (pr : Params ℝ) (limiter : HV ℝ → Grad ℝ) (predict : HV ℝ → Q ℝ)
+    (sched sched' : List Task) (hp : sched.Perm sched') (h : Respects L sched)
+    (h' : Respects L sched') (s : Grid (HV ℝ)) :
+    runSchedule flux pr limiter predict L c sched s
+      = runSchedule flux pr limiter predict L c sched' s :=
+  foldl_eq_of_respects (fun s t => execTask flux pr limiter predict L c t s) (mustPrecede L)
+    (fun a b h1 h2 z => execTask_comm flux pr limiter predict L c hc a b h1 h2 z)
+    sched' sched hp h h' s
+
+/-- **schedule_independent.**  Every linear extension of C07's task graph (every existing task
+once, no task before one of the tasks it waits for — by C07 these are exactly the orders in which
+the worker loop can complete the tasks, whatever the number of threads) yields the same cell
+states, for every layout, periodicity, flux function, limiter, prediction, state and `dt`:
+conflicting tasks of different phases are ordered by the graph (`anc_of_mustPrecede`), all others
+commute.  Tasks are atomic here (a parallel run is serialised in the order the tasks finish; C07's
+`hydro_conflict_free` shows that tasks running at the same time touch disjoint subgrids). -/
+theorem schedule_independent (L : Layout) (c : Cells) (hc : 0 < c.cx ∧ 0 < c.cy ∧ 0 < c.cz)
+    (flux : FluxFn ℝ) (pr : Params ℝ) (limiter : HV ℝ → Grad ℝ) (predict : HV ℝ → Q ℝ)
+    (sched sched' : List Task) (h : LinExt L sched) (h' : LinExt L sched') (s : Grid (HV ℝ)) :
+    runSchedule flux pr limiter predict L c sched s
+      = runSchedule flux pr limiter predict L c sched' s :=
+  respecting_schedules_agree L c hc flux pr limiter predict sched sched'
+    ((List.perm_ext_iff_of_nodup h.nodup h'.nodup).mpr (fun t => (h.all t).trans (h'.all t).symm))
+    (linExt_respects h) (linExt_respects h') s
+
+
+/-- **schedule_equals_step.**  … and that common result is, on every cell of the grid, the state
+computed by `hydroStep` with the calls of the layout — the phase-by-phase model used by
+`step_layout_independent` (all gradient sweeps, all limiters, … is one linear extension). -/
+theorem schedule_equals_step (L : Layout) (c : Cells) (hc : 0 < c.cx ∧ 0 < c.cy ∧ 0 < c.cz)
+    (flux : FluxFn ℝ) (pr : Params ℝ) (limiter : HV ℝ → Grad ℝ) (predict : HV ℝ → Q ℝ)
+    (sched : List Task) (h : LinExt L sched) (s : Grid (HV ℝ)) (x : Cell)
+    (hx : valid (cellGrid L c) x = true) :
+    runSchedule flux pr limiter predict L c sched s x
+      = hydroStep flux pr limiter predict (layoutOps L c) (layoutOps L c) s x := by
+  rw [schedule_independent L c hc flux pr limiter predict sched (phaseSched L) h
+    (phaseSched_linExt L) s]
+  exact phaseSched_computes_step flux pr limiter predict L c hc s x hx
+
+/-- **execution_layout_independent.**  The full statement in exact arithmetic: two subgrid layouts
+of the same global grid, each executed in any order its task graph allows (any number of threads,
+any interleaving of whole tasks), leave every cell of the grid in the same state — the state of
+the plain sequential sweep over the undivided grid. -/
+theorem execution_layout_independent (L L' : Layout) (c c' : Cells)
+    (hc : 0 < c.cx ∧ 0 < c.cy ∧ 0 < c.cz) (hc' : 0 < c'.cx ∧ 0 < c'.cy ∧ 0 < c'.cz)
+    (hG : cellGrid L c = cellGrid L' c')
+    (flux : FluxFn ℝ) (pr : Params ℝ) (limiter : HV ℝ → Grad ℝ) (predict : HV ℝ → Q ℝ)
+    (sched sched' : List Task) (h : LinExt L sched) (h' : LinExt L' sched') (s : Grid (HV ℝ))
+    (x : Cell) (hx : valid (cellGrid L c) x = true) :
+    runSchedule flux pr limiter predict L c sched s x
+        = runSchedule flux pr limiter predict L' c' sched' s x ∧
+      runSchedule flux pr limiter predict L c sched s x
+        = hydroStep flux pr limiter predict (gridOps (cellGrid L c)) (gridOps (cellGrid L c)) s x := by
+  have e1 := schedule_equals_step L c hc flux pr limiter predict sched h s x hx
+  have e2 := schedule_equals_step L' c' hc' flux pr limiter predict sched' h' s x (hG ▸ hx)
+  have e3 := step_same_for_all_layouts L L' c c' hc hc' hG flux pr limiter predict s
+  constructor
+  · rw [e1, e2, e3]
+  · rw [e1, step_layout_independent L c hc]
+
+/-- **single_thread_deterministic.**  With one thread the worker loop is sequential: whatever the
+queue discipline `pick` (any function of the list of ready tasks that returns one of them), the
+order of execution `oneThreadOrder` is a function of the layout and of `pick` alone — it does not
+depend on the hydro data —, never starts a task before its parents and never runs a task twice;
+once all tasks have run it is a linear extension of the task graph, so the result is
+`runSchedule` of that fixed order: a function of the initial state (and, on the cells of the grid,
+the state of `hydroStep`).  That the loop does not stop before all tasks have run is C07's
+`hydro_progress`. -/
+theorem single_thread_deterministic (L : Layout) (c : Cells) (hc : 0 < c.cx ∧ 0 < c.cy ∧ 0 < c.cz)
+    (pick : List Task → Option Task) (hpick : ∀ l t, pick l = some t → t ∈ l) (n : Nat) :
+    OneThreadInv L (oneThreadOrder L pick n []) ∧
+      ((oneThreadOrder L pick n []).length = (allTasks L).length →
+        LinExt L (oneThreadOrder L pick n []) ∧
+        ∀ (flux : FluxFn ℝ) (pr : Params ℝ) (limiter : HV ℝ → Grad ℝ) (predict : HV ℝ → Q ℝ)
+          (s : Grid (HV ℝ)) (x : Cell), valid (cellGrid L c) x = true →
+          runSchedule flux pr limiter predict L c (oneThreadOrder L pick n []) s x
+            = hydroStep flux pr limiter predict (layoutOps L c) (layoutOps L c) s x) := by
+  have hinv := oneThreadOrder_inv L pick hpick n [] (oneThreadInv_nil L)
+  refine ⟨hinv, fun hlen => ?_⟩
+  have hl := linExt_of_oneThread hinv hlen
+  exact ⟨hl, fun flux pr limiter predict s x hx =>
+    schedule_equals_step L c hc flux pr limiter predict _ hl s x hx⟩
+
+/-- non-vacuity: the phase-by-phase order is a linear extension for every layout -/
+example (L : Layout) : LinExt L (phaseSched L) := phaseSched_linExt L
+
+/-- the graph facts behind it, for every layout: a task that must precede another one is its
+ancestor in the task graph -/
+theorem dependences_ordered_by_graph (L : Layout) (a b : Task) (ha : exists_ L a = true)
+    (hb : exists_ L b = true) (h : mustPrecede L a b) : Relation.TransGen (Par L) a b :=
+  anc_of_mustPrecede ha hb h
 
 /-- non-vacuity: 12 × 6 × 4 cells as 2 × 3 × 1 subgrids of 6 × 2 × 4 cells or 3 × 1 × 2 of
 4 × 6 × 2 -/
